@@ -28,6 +28,9 @@ type C17Case struct {
 	Caps   mockstore.Caps `json:"caps"`
 	// Origin: grammar | mutated | bytes | fuzz
 	Origin string `json:"origin"`
+	// Mistake, when set, names the one mistake the query was written with: evaluation must
+	// report an error (second sentence of the statement).
+	Mistake string `json:"mistake,omitempty"`
 }
 
 const c17Watchdog = 20 * time.Second
@@ -106,6 +109,11 @@ func c17Check(c C17Case) (r evid.Result) {
 			return r
 		}
 	}
+	if c.Mistake != "" && out.err == nil {
+		r.Violation = evid.Viol("C17/mistake-not-reported", "query %q contains a mistake (%s) but evaluation returned a %s result without an error", q, c.Mistake, out.data.Type)
+		return r
+	}
+	r.Class(c.Mistake != "", "mistake="+c.Mistake)
 	r.Class(out.err != nil, "error")
 	r.Class(out.calls > 0, "reached-storage")
 	r.NonTrivial = (perr == nil && out.calls > 0 && len(c.Recs) > 0) || (c.Origin == "mutated" && perr == nil)
@@ -164,6 +172,44 @@ var c17HostileLines = []string{
 }
 
 var c17IPLines = c17HostileLines[len(c17HostileLines)-29:]
+
+// c17Mistakes are queries' stages (or selectors) with one mistake each.
+var c17Mistakes = []struct{ kind, stage, selector string }{
+	// pattern: two captures with nothing between them (named or not), a name used twice (what the
+	// parts of such a pattern capture is ambiguous; a pattern without captures or a regexp stage
+	// without named groups is merely useless and not listed)
+	{"pattern: consecutive captures", "pattern `<a><b>`", ""},
+	{"pattern: consecutive captures", "pattern `<_><b>`", ""},
+	{"pattern: consecutive captures", "pattern `<a><_>`", ""},
+	{"pattern: consecutive captures", "pattern `<_><_>`", ""},
+	{"pattern: consecutive captures", "pattern `<m> <_><p> <s>`", ""},
+	{"pattern: consecutive captures", "pattern `x <_><_><p>`", ""},
+	{"pattern: duplicate capture name", "pattern `<a> <a>`", ""},
+	{"pattern: duplicate capture name", "pattern `<a> <_> <a>`", ""},
+	// regular expressions that do not compile, wherever one can be written
+	{"bad regex", "regexp `(?P<a>`", ""},
+	{"bad regex", "regexp `(?P<a>x)(`", ""},
+	{"bad regex", "a =~ `(`", ""},
+	{"bad regex", "a !~ `[a-`", ""},
+	{"bad regex", "", "{a=~`(`}"},
+	{"bad regex", "", "{a!~`x{2,1}`}"},
+	{"bad regex", "", "{} |~ `(`"},
+	{"bad regex", "", "{} !~ `*`"},
+	{"regexp stage with a group name used twice", "regexp `(?P<a>x)(?P<a>y)`", ""},
+	// templates that do not parse
+	{"bad template", "line_format `{{`", ""},
+	{"bad template", "line_format `{{ .a | nosuchfunction }}`", ""},
+	{"bad template", "label_format a=`{{ end }}`", ""},
+	{"bad template", "label_format a=`{{ if }}x{{ end }}`", ""},
+	// JSON paths that do not parse
+	{"bad JSON path", "json a=`b[`", ""},
+	{"bad JSON path", "json a=`[\"x`", ""},
+	{"bad JSON path", "json a=`b..c`", ""},
+	// ip() with something that is not an address, a range or a prefix
+	{"bad ip pattern", "a = ip(`10.0.0.300`)", ""},
+	{"bad ip pattern", "", "{} |= ip(`10.0.0.1/33`)"},
+	{"bad ip pattern", "", "{} |= ip(`b-a`)"},
+}
 
 // c17LongKeyLine draws a JSON, logfmt or packed line with a key of a length at which a fixed-size
 // buffer ends (a power of two, one less, one more), starting with a digit (a label name then
@@ -230,7 +276,28 @@ func c17Gen(t *rapid.T) C17Case {
 	c.Params = c17GenParams(t)
 	c.Caps = mockstore.Caps{Label: rapid.IntRange(0, 15).Draw(t, "caps-label"), Line: rapid.IntRange(0, 15).Draw(t, "caps-line")}
 	layout := datagen.RapidLayout{T: t, Heavy: true, Comments: true, RawOK: true}
-	switch rapid.IntRange(0, 13).Draw(t, "origin") {
+	switch rapid.IntRange(0, 14).Draw(t, "origin") {
+	case 14:
+		// A query written with exactly one of the mistakes the statement names, in every form of
+		// it: the answer has to be an error, not a result computed from a misread stage.
+		c.Origin = "known-mistake"
+		m := rapid.SampledFrom(c17Mistakes).Draw(t, "mistake")
+		c.Mistake = m.kind
+		q := "{} | " + m.stage
+		if m.selector != "" {
+			q = m.selector
+		}
+		switch rapid.IntRange(0, 3).Draw(t, "mistake-wrap") {
+		case 0:
+			q = "count_over_time(" + q + " [1m])"
+		case 1:
+			q = "sum by (a) (rate(" + q + " [5s])) > 0"
+		case 2:
+			if m.selector == "" {
+				q = "{} | logfmt | " + m.stage + ` | line_format "{{ .a }}"`
+			}
+		}
+		c.Query = gen.BS(q)
 	case 13:
 		// Keys of the lengths at which a fixed-size buffer ends, through every stage that turns
 		// keys into label names.
